@@ -128,10 +128,11 @@ OPTS = {
     'jec': [{}, {'route': 'cs'}, {'route': 'fd'}, {'jit': False}, {'color': True},
             {'color': True, 'route': 'cs'}, {'diag': True}, {'mf': True}, {'mf': True, 'mode': 'rev'},
             {'decl': 'val'}, {'decl': 'dyn'}, {'mode': 'rev'}, {'color': True, 'jit': False},
-            {'partials': 'declared'}, {'color': True, 'partials': 'declared'}],
+            {'partials': 'declared'}, {'color': True, 'partials': 'declared'},
+            {'sparse': True}, {'sparse': True, 'mode': 'rev'}],
     'jic': [{}, {'route': 'cs'}, {'route': 'fd'}, {'jit': False}, {'color': True},
             {'color': True, 'route': 'cs'}, {'mf': True}, {'decl': 'val'}, {'decl': 'dyn'},
-            {'partials': 'declared'}, {'color': True, 'jit': False}],
+            {'partials': 'declared'}, {'color': True, 'jit': False}, {'sparse': True}],
 }
 OPTS_Q = {w: [o for o in OPTS[w]] for w in WRAPPERS}
 
@@ -414,11 +415,24 @@ def source(spec, ref):
             lines.append("        self.add_output('%s', shape=%s)" % (o, _shape_src(oshapes[o])))
     if opt.get('color'):
         lines.append('        self.declare_coloring(show_summary=False)')
-    if opt.get('diag') or opt.get('partials') == 'declared':
+    if opt.get('diag') or opt.get('partials') == 'declared' or opt.get('sparse'):
         lines.append('    def setup_partials(self):')
-        for o in outs:
+        for io, o in enumerate(outs):
             for n in innames + states:
-                if opt.get('diag') and _size(oshapes[o]) > 1 and n in innames and \
+                pat = None
+                if opt.get('sparse') and n in innames:
+                    # rows/cols = the exact nonzero pattern of d body/d input (union over the
+                    # reference points); generally neither diagonal nor symmetric
+                    pat = np.zeros((_size(oshapes[o]), _size(shapes[n])), dtype=bool)
+                    for pt in ref['points']:
+                        pat |= np.asarray(pt[3][io][n]).reshape(pat.shape) != 0
+                    if not pat.any() or pat.size == 1:
+                        pat = None
+                if pat is not None:
+                    rr, cc = np.nonzero(pat)
+                    lines.append("        self.declare_partials('%s', '%s', rows=np.array(%s), "
+                                 "cols=np.array(%s))" % (o, n, rr.tolist(), cc.tolist()))
+                elif opt.get('diag') and _size(oshapes[o]) > 1 and n in innames and \
                         _size(shapes[n]) > 1:
                     lines.append("        self.declare_partials('%s', '%s', rows=np.arange(%d), "
                                  "cols=np.arange(%d))" % (o, n, _size(oshapes[o]), _size(oshapes[o])))
